@@ -261,6 +261,35 @@ def _find_harness_file(harness, roots):
     return None
 
 
+def _publicise(roots):
+    """in the SCRATCH copy only: harness functions and their modules become pub(crate) so that the playback test, which is
+    appended at the top level of a file, can name the harness by its crate path"""
+    for root in roots:
+        for dp, _, fs in os.walk(root):
+            for f in fs:
+                if not f.endswith(".rs"):
+                    continue
+                p = os.path.join(dp, f)
+                lines = open(p, errors="replace").read().split("\n")
+                armed = False
+                for i, l in enumerate(lines):
+                    st = l.strip()
+                    if st.startswith("#[kani::proof"):
+                        armed = True
+                        continue
+                    if armed and st.startswith("#["):
+                        continue
+                    if armed:
+                        m = re.match(r"^(\s*)(async\s+)?fn\s", l)
+                        if m:
+                            lines[i] = l.replace("fn ", "pub(crate) fn ", 1) if "pub" not in l.split("fn")[0] else l
+                        armed = False
+                    m = re.match(r"^(\s*)mod\s+(\w+)\s*\{", l)
+                    if m:
+                        lines[i] = m.group(1) + "pub(crate) " + l[len(m.group(1)):]
+                open(p, "w").write("\n".join(lines))
+
+
 def concrete_playback(harness, where, slot, env, out):
     """Returns {confirmed, profiles, test, concrete_vals, output}."""
     scratch = os.path.join(BUILD, "playback", "%s-%s" % (where, harness.replace(":", "_")))
@@ -280,6 +309,7 @@ def concrete_playback(harness, where, slot, env, out):
         cwd = os.path.dirname(WHERE[where])
         manifest = ["--manifest-path", WHERE[where]]
         roots = [inc]
+    _publicise(roots)
     target_dir = os.path.join(BUILD, "kani", "%s-pb%d" % (where, slot + SLOT_BASE))
     m = re.search(r"```\s*\n(/// Test generated for harness.*?)```", out, re.S)
     if not m:
